@@ -135,6 +135,19 @@ def run(prog, rep, tier, cfg):
     if cfg != 'nofilactor':
         shim_rules(prog, rep)
     evm_method_rules(prog, rep)
+    # accept-any methods whose designated callers are enforced by hand-written gates (owned by other properties, re-evaluated here)
+    from rules import Ctx
+    from props import c12, c13, c20
+    X = Ctx(prog, rep)
+    for (fn_, args) in ((c12.caller_gates, ('multisig:',)), (c13.beneficiary_gates, ('miner:',)),):
+        try:
+            fn_(prog, rep, X, *args)
+        except AnchorMissing as e:
+            rep.anchor_missing('hand-gates', e)
+    try:
+        c20.exec_gates(prog, rep, X, c20.type_discr(prog), 'init:')
+    except AnchorMissing as e:
+        rep.anchor_missing('hand-gates', e)
 
 
 def restrict_rules(prog, rep):
